@@ -3,7 +3,6 @@ package props
 import (
 	"strings"
 	"testing"
-
 )
 
 // livenessInv counts what the hostile histories got accepted; the oracle itself is the
@@ -13,7 +12,7 @@ type livenessInv struct {
 	blocksAfter     int
 }
 
-func (l *livenessInv) Init(m *Machine) error       { return nil }
+func (l *livenessInv) Init(m *Machine) error        { return nil }
 func (l *livenessInv) Before(m *Machine, a *Action) {}
 func (l *livenessInv) After(m *Machine, a *Action, o Outcome) error {
 	if a.Hostile && o.OK {
